@@ -371,7 +371,7 @@ def run(rep):
     c05_tf.describe(rep)
   except ImportError:
     pass
-  rep.bounds = dict(tasks=len(ts), graft_types=dsh.GRAFTS[:-1], shapes=sorted({str(tuple(t['shape'])) for t in ts}),
+  rep.bounds = dict(tasks=len(ts), graft_types=dsh.GRAFTS[:-1] + ['tearfree ADAFACTOR (optax chain traced as the graft step)'], shapes=sorted({str(tuple(t['shape'])) for t in ts}),
                     modes=sorted({t.get('mode', t['kind']) for t in ts}), step_counter='symbolic', history='one step from arbitrary state')
   rep.stubs = ['matrix_inverse_pth_root -> ROOT/ERR uninterpreted functions', '_low_rank_root / _fd_update_root -> generic uninterpreted functions (compressed and frequent-directions modes)', 'int16-quantized mode: pmap trace (axis_env D=1), exact round-half-even',
                'eigh -> fresh outputs memoised per input (tearfree)']
